@@ -63,7 +63,10 @@ ARemoveRow == \E i \in Idx(R) : Do("remove_row", [index |-> i], 0)
 APopRow    == Do("pop_row", NoArg, 0)
 ARemoveCol == \E i \in Idx(C) : Do("remove_col", [index |-> i], 0)
 APopCol    == Do("pop_col", NoArg, 0)
-ADrain     == \E op \in DrainOps : Do(op, NoArg, 0)
+ADrain     == \/ \E op \in DrainOps \ {"d_nth", "d_nth_back"} : Do(op, NoArg, 0)
+              \/ /\ handle.kind # "none"
+                 /\ \E op \in {"d_nth", "d_nth_back"} :
+                      \E k \in Small(Len(handle.items) - handle.f - handle.b) \cup {1000} : Do(op, [n |-> k], 0)
 
 (* ---- whole-array calls ---- *)
 AClear     == Do("clear", NoArg, 0)
@@ -88,9 +91,10 @@ ACloneInto == \/ \E n \in {Cells, Cells + 1} : Do("clone_from_slice", [items |->
 AClone     == Do("clone", NoArg, 0)
 ACloneFrom == \E snc \in 0..MaxC, snr \in 0..MaxR : (snc = 0 <=> snr = 0) /\
                  Do("clone_from", [nc |-> snc, nr |-> snr, items |-> Fresh(snc * snr)], snc * snr)
-AFromView  == \E sc \in Edge(C), sr \in Edge(R), ec \in Edge(C), er \in Edge(R) :
+\* m = 0: From<TooDeeView> for TooDee, m = 1: From<TooDeeViewMut> for TooDee - one meaning
+AFromView  == \E sc \in Edge(C), sr \in Edge(R), ec \in Edge(C), er \in Edge(R), m \in {0, 1} :
                  sc <= ec /\ sr <= er /\ ec <= C /\ er <= R /\
-                 Do("from_view", [s |-> <<sc, sr>>, e |-> <<ec, er>>], 0)
+                 Do("from_view", [s |-> <<sc, sr>>, e |-> <<ec, er>>, m |-> m], 0)
 AConsume   == \E op \in {"into_vec", "into_box", "into_iter", "drop"} : Do(op, NoArg, 0)
 
 (***************************************************************************)
@@ -132,7 +136,7 @@ FIter == /\ "iter" \in Faults
 FClone == /\ "clone" \in Faults
           /\ \/ \E k \in 0..Cells : DoFault("fill", [v |-> nextId], PanicAt("clone", k), <<nextId>>, 1)
              \/ \E k \in 0..Cells : DoFault("clone", NoArg, PanicAt("clone", k), << >>, 0)
-             \/ \E k \in 0..Cells : DoFault("from_view", [s |-> <<0, 0>>, e |-> <<C, R>>], PanicAt("clone", k), << >>, 0)
+             \/ \E k \in 0..Cells : \E m \in {0, 1} : DoFault("from_view", [s |-> <<0, 0>>, e |-> <<C, R>>, m |-> m], PanicAt("clone", k), << >>, 0)
              \/ \E snc \in 0..MaxC, snr \in 0..MaxR : (snc = 0 <=> snr = 0) /\ \E k \in 0..(snc * snr), site \in {"clone", "drop"} :
                    DoFault("clone_from", [nc |-> snc, nr |-> snr, items |-> Fresh(snc * snr)], PanicAt(site, k), Fresh(snc * snr), snc * snr)
              \/ \E nc \in 1..MaxC, nr \in 1..MaxR : \E k \in 0..(nc * nr) :
